@@ -863,6 +863,20 @@ def linalg_inv(m):
     return r
 
 
+def linalg_solve(a, b):
+    """x with a @ x = b (documented semantics) through the closed-form inverse, n <= 3"""
+    a = a if isinstance(a, _np.ndarray) else f_array(a)
+    b = b if isinstance(b, _np.ndarray) else f_array(b)
+    if _rdt(a) != object and _rdt(b) != object:
+        return _np.linalg.solve(a, b)
+    inv = linalg_inv(a if _rdt(a) == object else sarr(a))
+    bb = b if _rdt(b) == object else sarr(b)
+    r = _np.dot(inv.view(_np.ndarray), bb.view(_np.ndarray))
+    r = r.view(SArr)
+    r._dt = _np.dtype(float)
+    return r
+
+
 def linalg_det(m):
     m = m if isinstance(m, _np.ndarray) else f_array(m)
     if _rdt(m) != object:
@@ -974,6 +988,7 @@ def f_sort(a, axis=-1, **kw):
 class _Linalg:
     eig = staticmethod(linalg_eig)
     inv = staticmethod(linalg_inv)
+    solve = staticmethod(linalg_solve)
     det = staticmethod(linalg_det)
     norm = staticmethod(linalg_norm)
 
